@@ -3,6 +3,7 @@ and the independent ground-truth oracle (DESIGN.md Appendix A).  Routing environ
 from __future__ import annotations
 
 import math
+from fractions import Fraction
 
 import numpy as np
 import z3
@@ -688,8 +689,9 @@ class MTVRPOracle:
         charged = leg if not self.O else s_where(cust, leg, 0.0)
         if self.L:
             st.flag(active, "route_length", s_gt(s_add(st["rlen"], charged), s_add(r["limit"], margin())))
+        spd = r.get("speed", 1.0)
         if self.TW:
-            arr = s_add(st["time"], leg)
+            arr = s_add(st["time"], T.s_div(leg, spd))
             late = pick(a, r["late"])
             if self.O:
                 st.flag(s_and(active, cust), "time_window", s_gt(arr, s_add(late, margin())))
@@ -709,7 +711,7 @@ class MTVRPOracle:
             if self.L:
                 st.flag(last, "route_length", s_gt(s_add(st["rlen"], back), s_add(r["limit"], margin())))
             if self.TW:
-                st.flag(last, "return_in_time", s_gt(s_add(st["time"], back), s_add(r["late"][0], margin())))
+                st.flag(last, "return_in_time", s_gt(s_add(st["time"], T.s_div(back, spd)), s_add(r["late"][0], margin())))
 
     def complete(self, st):
         return all_(st["visited"][1:])
@@ -719,8 +721,14 @@ class MTVRPOracle:
         return O.s_neg(s_add(st["cost"], 0.0 if self.O else back))
 
 
-def mtvrp_flags(variant):
+def mtvrp_speed(variant):
+    """'TW@2' = time-window variant generated with speed 2 (MTVRPGenerator(speed=...)); default 1"""
     v = variant or ""
+    return float(v.split("@")[1]) if "@" in v and not v.startswith("mix:") else 1.0
+
+
+def mtvrp_flags(variant):
+    v = (variant or "").split("@")[0]
     return ("O" in v, "TW" in v, "L" in v.replace("TW", ""), "B" in v)
 
 
@@ -739,10 +747,16 @@ class MTVRPSpec(Spec):
     MAXT, LIMIT = 4.6, 3.0
 
     def env_kwargs(self, n, variant):
-        return {"generator_params": {"num_loc": n, "variant_preset": mtvrp_preset(variant)}, "check_solution": False}
+        gp = {"num_loc": n, "variant_preset": mtvrp_preset(variant)}
+        if mtvrp_speed(variant) != 1.0:
+            gp["speed"] = mtvrp_speed(variant)
+        return {"generator_params": gp, "check_solution": False}
 
     def instance(self, src, B, n, variant):
         from symtorch import dist as DS
+
+        speed = mtvrp_speed(variant)
+        spd = z3.RealVal(str(Fraction(repr(speed))))
 
         # "mix:TW/L": the rows of the batch cycle through several variants (what the 'all' preset of the generator produces)
         row_variants = variant[4:].split("/") if (variant or "").startswith("mix:") else [variant]
@@ -766,19 +780,19 @@ class MTVRPSpec(Spec):
                     d0 = DS.norm2(X[j] - X[0], Y[j] - Y[0])
                     ln = l[j] - e[j]
                     src.assume(z3.And(sv[j] >= z3.RealVal("0.15"), sv[j] <= z3.RealVal("0.18"), ln >= z3.RealVal("0.18"), ln <= z3.RealVal("0.2"),
-                                      e[j] >= d0, e[j] <= self.MAXT - sv[j] - ln - d0))
+                                      e[j] >= d0 / spd, e[j] <= self.MAXT - sv[j] - ln - d0 / spd))
             else:
                 e, l, sv = [0.0] * (n + 1), [inf] * (n + 1), [0.0] * (n + 1)
             if Lf:
                 for j in range(1, n + 1):
                     src.assume(2 * DS.norm2(X[j] - X[0], Y[j] - Y[0]) < limit)
 
-            rows.append({"X": X, "Y": Y, "dl": dl, "db": db, "isback": isb, "early": e, "late": l, "service": sv, "limit": limit, "variant": vb})
+            rows.append({"X": X, "Y": Y, "dl": dl, "db": db, "isback": isb, "early": e, "late": l, "service": sv, "limit": limit, "variant": vb, "speed": speed})
             cols["locs"].append([[x, y] for x, y in zip(X, Y)])
             cols["dl"].append(dl), cols["db"].append(db), cols["limit"].append([limit])
             cols["tw"].append([[a_, b_] for a_, b_ in zip(e, l)]), cols["svc"].append(sv)
-            cols["open"].append([Of]), cols["cap"].append([1.0]), cols["cap0"].append([30.0]), cols["speed"].append([1.0])
-        src.ctx.assumptions.add("MTVRP (generator contract): coords in [0,1]; 0<demand<=1 (scaled); speed=1; distance limit any positive value; TW: service in [0.15,0.18], window length l-e in [0.18,0.2], d(0,j) <= e_j <= 4.6 - service - length - d(0,j); depot window [0,4.6]; L: 2*d(0,j) < limit (asserted by the generator); backhaul pattern arbitrary")
+            cols["open"].append([Of]), cols["cap"].append([1.0]), cols["cap0"].append([30.0]), cols["speed"].append([speed])
+        src.ctx.assumptions.add("MTVRP (generator contract): coords in [0,1]; 0<demand<=1 (scaled); speed = generator parameter (1, or the value after '@' in the variant name); travel time = distance / speed; distance limit any positive value; TW: service in [0.15,0.18], window length l-e in [0.18,0.2], d(0,j)/speed <= e_j <= 4.6 - service - length - d(0,j)/speed; depot window [0,4.6]; L: 2*d(0,j) < limit (asserted by the generator); backhaul pattern arbitrary")
         td = TensorDict({"locs": ftensor(cols["locs"]), "demand_linehaul": ftensor(cols["dl"]), "demand_backhaul": ftensor(cols["db"]),
                          "distance_limit": ftensor(cols["limit"]), "time_windows": ftensor(cols["tw"]), "service_time": ftensor(cols["svc"]),
                          "open_route": T.Tensor(np.array(cols["open"], dtype=object), T.bool_), "vehicle_capacity": ftensor(cols["cap"]),
@@ -792,7 +806,7 @@ class MTVRPSpec(Spec):
             dl, db = list(td["demand_linehaul"].a[b]), list(td["demand_backhaul"].a[b])
             row = {"X": list(L[:, 0]), "Y": list(L[:, 1]), "dl": dl, "db": db, "isback": [x > 0 for x in db],
                    "early": list(td["time_windows"].a[b, :, 0]), "late": list(td["time_windows"].a[b, :, 1]),
-                   "service": list(td["service_time"].a[b]), "limit": td["distance_limit"].a[b, 0]}
+                   "service": list(td["service_time"].a[b]), "limit": td["distance_limit"].a[b, 0], "speed": td["speed"].a[b, 0] if "speed" in td.keys() else 1.0}
             if (variant or "").startswith("mix:"):  # mixed batch: read the row's features off its data
                 o_ = bool(td["open_route"].a[b, 0])
                 tw_ = not (isinstance(row["late"][1], float) and math.isinf(row["late"][1]))
